@@ -3,7 +3,7 @@ change (seeded/C01-m*, seeded/C02-m*) or a repaired defect needed in order to ma
 first on every check, so these classes stay covered whatever the random generator draws.
 Each entry: (name, accounts {addr: items}, options); the executing account is scenarios.THIS.
 """
-from harness import asm, scenarios
+from harness import asm, progen, scenarios
 
 T = scenarios.THIS
 A, B = 0x1000, 0x2000
@@ -142,6 +142,107 @@ def entries():
     main = mload + [("push", 64), "MSTORE", ("push", 1), "SLOAD", ("push", 96), "MSTORE"] + ARG0 + [("ref", "M"), "JUMPI", ("push", 9), ("push", 1), "SSTORE", ("label", "M"),
                     ("push", 1), "SLOAD", ("push", 128), "MSTORE"] + mload + [("push", 160), "MSTORE"] + ret(192)
     out.append(("symbolic-storage-mapping-and-scalar", {T: main}, {"_symbolic_storage": True}))
+    return out + create2_entries()
+
+
+def c2(init, salt, value=None, arg=None, base=256):
+    """items: store the init code (+ a 32-byte constructor argument right after it) in memory and CREATE2 it;
+    the result (address or 0) is left on the stack"""
+    items = progen.place_code(init, base)
+    n = len(init)
+    if arg is not None:
+        items += arg + [("push", base + n), "MSTORE"]
+        n += 32
+    return items + salt + [("push", n), ("push", base)] + (value or [("push", 0)]) + ["CREATE2"]
+
+
+KNOWN_C2 = "known-create2-placeholder-"   # entries that exhibit the recorded finding C01-create2-placeholder-address
+
+
+def create2_entries():
+    """CREATE2 (DESIGN.md 10.2.x).  Every init code carries a tag byte of its own (PUSH1 tag; POP): two creations of one
+    program either have the very same spelling of (sender, salt, init code) or different init codes -- except in the
+    `known-create2-placeholder-*` entries, which are there to exhibit the recorded finding."""
+    out = []
+    rt_echo = asm.assemble(["CALLER", "PUSH0", "MSTORE", "ADDRESS", ("push", 32), "MSTORE", ("push", 64), "PUSH0", "RETURN"])
+    other = asm.assemble([("push", 0xEE), "PUSH0", "MSTORE", ("push", 32), "PUSH0", "RETURN"])
+
+    def deploy(code):
+        return [("pushn", 32, int.from_bytes(code.ljust(32, b"\0"), "big")), "PUSH0", "MSTORE", ("push", len(code)), "PUSH0", "RETURN"]
+
+    # what the creator looks at afterwards (the address stays on the stack): address, code size, returndata size
+    look = ["DUP1", ("push", 192), "MSTORE", "DUP1", "EXTCODESIZE", ("push", 96), "MSTORE", "RETURNDATASIZE", ("push", 160), "MSTORE"]
+    callit = [("push", 64), ("push", 128), "PUSH0", "PUSH0", "PUSH0", ("push", 192), "MLOAD", ("push", 100000), "CALL", ("push", 224), "MSTORE"]
+    # (a) fully concrete init code; concrete / symbolic salt; the deployed code is called
+    init = asm.assemble([("pushn", 1, 0x11), "POP"] + deploy(rt_echo))
+    for name, salt in (("concrete-salt", [("push", 5)]), ("symbolic-salt", ARG0), ("caller-salt", ["CALLER"])):
+        out.append((f"create2-concrete-init-{name}", {T: c2(init, salt) + look + ["POP"] + callit + ret(256)}, {}))
+
+    # (b) a concrete constructor followed by a symbolic constructor argument; the constructor JUMPs over a trap, then
+    #     branches on the argument; the deployed code (or the revert data) depends on it                 [seeded C19-m6]
+    def ctor(n, e1, e2, test):
+        return asm.assemble([("pushn", 1, 0x12), "POP", ("push", 32), ("pushn", 1, n), "PUSH0", "CODECOPY", ("ref", "A"), "JUMP", "INVALID", ("label", "A"),
+                             "PUSH0", "MLOAD"] + test + [("ref", "B"), "JUMPI"] + e1 + [("label", "B")] + e2)
+
+    variants = {
+        "two-runtimes": (deploy(rt_echo), deploy(other), [("push", 5), "LT"]),
+        "revert-or-deploy": ([("push", 32), "PUSH0", "REVERT"], deploy(rt_echo), ["ISZERO"]),
+        "store-arg": (["PUSH0", "MLOAD", ("push", 3), "SSTORE"] + deploy(rt_echo), deploy(other), [("push", 7), "EQ"]),
+    }
+    for name, (e1, e2, test) in variants.items():
+        init = ctor(len(ctor(0, e1, e2, test)), e1, e2, test)
+        main = c2(init, [("push", 1)], arg=ARG0) + look + ["POP"] + ["RETURNDATASIZE", "PUSH0", ("push", 128), "RETURNDATACOPY"] + callit + ret(256)
+        out.append((f"create2-ctor-args-{name}", {T: main}, {}))
+    # the plain shape: PUSH1 3; JUMP; JUMPDEST; STOP followed by a symbolic word
+    out.append(("create2-jumping-ctor-symbolic-tail", {T: c2(bytes.fromhex("6003565b00"), [("push", 0)], arg=ARG0) + look + ["POP"] + ret(256)}, {}))
+    # (c) the same (salt, init code) twice: the second creation collides; another salt / init code does not; after a
+    #     FAILED first creation the address is still free
+    init = asm.assemble([("pushn", 1, 0x13), "POP"] + deploy(rt_echo))
+    init_b = asm.assemble([("pushn", 1, 0x23), "POP"] + deploy(rt_echo))
+    for name, salt in (("concrete", [("push", 7)]), ("symbolic", ARG1)):
+        third = c2(init, [("push", 8)]) if name == "concrete" else c2(init_b, ARG1)
+        main = c2(init, salt) + ["PUSH0", "MSTORE"] + c2(init, salt) + [("push", 32), "MSTORE", "RETURNDATASIZE", ("push", 64), "MSTORE"] + third + [("push", 96), "MSTORE"] + ret(128)
+        out.append((f"create2-same-salt-twice-{name}", {T: main}, {}))
+    bad = asm.assemble([("pushn", 1, 0x14), "POP", ("push", 0xAB), "PUSH0", "MSTORE", ("push", 32), "PUSH0", "REVERT"])
+    main = c2(bad, [("push", 7)]) + ["PUSH0", "MSTORE", "RETURNDATASIZE", ("push", 32), "MSTORE"] + c2(bad, [("push", 7)]) + [("push", 64), "MSTORE"] + ret(96)
+    out.append(("create2-same-salt-after-failure", {T: main}, {}))
+    # (d) value: constant / symbolic / CALLVALUE, sufficient and not; the new account's balance; then a CREATE, whose
+    #     address shows that CREATE2 did not consume the CREATE counter
+    init = asm.assemble([("pushn", 1, 0x15), "POP", "CALLVALUE", "PUSH0", "SSTORE"] + deploy(rt_echo))
+    tiny = asm.assemble([("push", 0xFE), "PUSH0", "MSTORE8", ("push", 1), "PUSH0", "RETURN"])
+    for name, value in (("constant", [("push", 1000)]), ("symbolic", ARG1), ("callvalue", ["CALLVALUE"])):
+        main = c2(init, [("push", 2)], value=value) + look + ["BALANCE", ("push", 128), "MSTORE", "SELFBALANCE", "PUSH0", "MSTORE"] + \
+               progen.place_code(tiny, 256) + [("push", len(tiny)), ("push", 256), "PUSH0", "CREATE", ("push", 32), "MSTORE"] + ret(256)
+        out.append((f"create2-with-value-{name}", {T: main}, {}))
+    # (e) CREATE2 inside a callee: the sender is the callee (CALL) or the caller (DELEGATECALL / CALLCODE: the caller's own
+    #     creation of the same thing then collides); a creating callee reached by STATICCALL halts
+    init = asm.assemble([("pushn", 1, 0x16), "POP"] + deploy(rt_echo))
+    callee = c2(init, [("push", 3)]) + ["DUP1", "PUSH0", "MSTORE", "EXTCODESIZE", ("push", 32), "MSTORE"] + ret(64)
+    for kind in ("CALL", "DELEGATECALL", "CALLCODE", "STATICCALL"):
+        main = ARG0 + ["PUSH0", "MSTORE"] + call(kind, A, retoff=64, retsz=64) + [("push", 192), "MSTORE", ("push", 64), "MLOAD", "EXTCODESIZE", ("push", 160), "MSTORE"] + \
+               c2(init, [("push", 3)]) + [("push", 224), "MSTORE"] + ret(256)
+        out.append((f"create2-in-callee-{kind}", {T: main, A: callee}, {}))
+    # a callee that creates and then reverts: the creation goes with the frame, the caller's own creation of the same thing works
+    callee_r = c2(init, [("push", 3)]) + ["PUSH0", "MSTORE", ("push", 32), "PUSH0", "REVERT"]
+    main = call("DELEGATECALL", A, argsz=0, retoff=64, retsz=32) + ["PUSH0", "MSTORE", ("push", 64), "MLOAD", "EXTCODESIZE", ("push", 32), "MSTORE"] + \
+           c2(init, [("push", 3)]) + [("push", 96), "MSTORE"] + ret(128)
+    out.append(("create2-rolled-back-with-callee", {T: main, A: callee_r}, {}))
+    # the executing frame itself is static
+    out.append(("create2-static-frame", {T: c2(init, [("push", 3)]) + ["PUSH0", "MSTORE"] + ret(32)}, {"_static": True}))
+    # (f) a constructor that reverts WITH data / halts: the creator's returndata buffer, nothing left behind, the value stays
+    for name, tail in (("revert-data", [("push", 33), "PUSH0", "REVERT"]), ("invalid", ["INVALID"]), ("revert-empty", ["PUSH0", "PUSH0", "REVERT"])):
+        init = asm.assemble([("pushn", 1, 0x17), "POP", ("push", 0xAB), "PUSH0", "MSTORE", ("push", 7), ("push", 1), "SSTORE"] + tail)
+        main = c2(init, ARG0, value=[("push", 1)]) + ["PUSH0", "MSTORE", "RETURNDATASIZE", ("push", 32), "MSTORE", "RETURNDATASIZE", "PUSH0", ("push", 64), "RETURNDATACOPY",
+                                                       "SELFBALANCE", ("push", 128), "MSTORE"] + ret(160)
+        out.append((f"create2-failing-ctor-{name}", {T: main}, {}))
+    # ---- recorded finding C01-create2-placeholder-address (known_findings.json): halmos does not compute a CREATE2 address, it
+    #      NAMES it (0xBBBB0000 + k), and it does so for every keccak over 85 bytes starting with 0xff; whether two creations
+    #      collide is decided by the SPELLING of the hashed term
+    main = [("push", 0xFF), "PUSH0", "MSTORE8"] + ARG0 + [("push", 21), "MSTORE", ("push", 85), "PUSH0", "SHA3", "PUSH0", "MSTORE"] + ret(32)
+    out.append((KNOWN_C2 + "sha3-of-85-bytes", {T: main}, {}))
+    init = asm.assemble([("pushn", 1, 0x18), "POP"] + deploy(rt_echo))
+    main = c2(init, [("push", 5)]) + ["PUSH0", "MSTORE"] + c2(init, ARG0) + [("push", 32), "MSTORE"] + ret(64)
+    out.append((KNOWN_C2 + "collision-by-spelling", {T: main}, {"_args": [{"arg0": 5}]}))
     return out
 
 
@@ -155,6 +256,6 @@ def descriptions(direction):
             continue
         d = {"profile": "corpus:" + name, "code": asm.assemble(accounts[T]).hex(),
              "callees": {hex(a): asm.assemble(items).hex() for a, items in accounts.items() if a != T},
-             "options": opts, "static": False, "nargs": 2, "symbolic_storage": bool(options.get("_symbolic_storage"))}
+             "options": opts, "static": bool(options.get("_static")), "nargs": 2, "extra_args": options.get("_args", []), "symbolic_storage": bool(options.get("_symbolic_storage"))}
         descs.append(d)
     return descs
